@@ -41,6 +41,8 @@ Inductive event :=
 | Reg (on:bool)            (* custom SPARQL functions registered / unregistered *)
 | Noted (what:string)      (* an effect-free step that may still fail, e.g. the validation loop *)
 | Forget                   (* the id(graph)-keyed module caches are emptied *)
+| Mix (o:N)                (* content view (C14): the ontology's axioms are added to object o *)
+| Infer (o:N)              (* content view (C14): the closure of o's union graph is added to o *)
 | Raised (cls:string).
 
 Record state := {
@@ -126,40 +128,41 @@ Definition call_summary (f:string) (args:list value) (st:state) : eres :=
   end.
 
 Section Exec.
+Variable summary : string -> list value -> state -> eres.   (* events and result of the white-listed callees *)
 Variable methods : list (string * list stmt).   (* other translated methods of the same class *)
 
 Fixpoint find_method (l:list (string * list stmt)) (k:string) : option (list stmt) :=
   match l with [] => None | (k', b) :: r => if String.eqb k k' then Some b else find_method r k end.
 
-Fixpoint eval (fuel:nat) (e:expr) (st:state) {struct fuel} : eres :=
+Fixpoint eval_gen (fuel:nat) (e:expr) (st:state) {struct fuel} : eres :=
   match fuel with O => ES "fuel" | S fuel' =>
   match e with
   | EName x => match lookup (vars st) x with Some v => EV v st | None => ES ("unbound " ++ x) end
   | ESelf a => match lookup (selfs st) a with Some v => EV v st | None => ES ("no attribute " ++ a) end
   | EConst v => EV v st
-  | ENot a => match eval fuel' a st with EV v st' => EV (VBool (negb (truthy v))) st' | r => r end
-  | EAnd a b => match eval fuel' a st with
-                | EV v st' => if truthy v then eval fuel' b st' else EV v st'
+  | ENot a => match eval_gen fuel' a st with EV v st' => EV (VBool (negb (truthy v))) st' | r => r end
+  | EAnd a b => match eval_gen fuel' a st with
+                | EV v st' => if truthy v then eval_gen fuel' b st' else EV v st'
                 | r => r end
-  | EOr a b => match eval fuel' a st with
-               | EV v st' => if truthy v then EV v st' else eval fuel' b st'
+  | EOr a b => match eval_gen fuel' a st with
+               | EV v st' => if truthy v then EV v st' else eval_gen fuel' b st'
                | r => r end
-  | EIsNone a => match eval fuel' a st with EV v st' => EV (VBool (match v with VNone => true | _ => false end)) st' | r => r end
-  | EIsNotNone a => match eval fuel' a st with EV v st' => EV (VBool (match v with VNone => false | _ => true end)) st' | r => r end
-  | EEq a b => match eval fuel' a st with
-               | EV va st' => match eval fuel' b st' with EV vb st'' => EV (VBool (value_eqb va vb)) st'' | r => r end
+  | EIsNone a => match eval_gen fuel' a st with EV v st' => EV (VBool (match v with VNone => true | _ => false end)) st' | r => r end
+  | EIsNotNone a => match eval_gen fuel' a st with EV v st' => EV (VBool (match v with VNone => false | _ => true end)) st' | r => r end
+  | EEq a b => match eval_gen fuel' a st with
+               | EV va st' => match eval_gen fuel' b st' with EV vb st'' => EV (VBool (value_eqb va vb)) st'' | r => r end
                | r => r end
-  | ENe a b => match eval fuel' a st with
-               | EV va st' => match eval fuel' b st' with EV vb st'' => EV (VBool (negb (value_eqb va vb))) st'' | r => r end
+  | ENe a b => match eval_gen fuel' a st with
+               | EV va st' => match eval_gen fuel' b st' with EV vb st'' => EV (VBool (negb (value_eqb va vb))) st'' | r => r end
                | r => r end
   | EOpt k d => match lookup (opts st) k, d with
                 | Some v, _ => EV v st
                 | None, Some v => EV v st
                 | None, None => EX "KeyError" st
                 end
-  | EStr a => eval fuel' a st
-  | EIf c a b => match eval fuel' c st with
-                 | EV v st' => if truthy v then eval fuel' a st' else eval fuel' b st'
+  | EStr a => eval_gen fuel' a st
+  | EIf c a b => match eval_gen fuel' c st with
+                 | EV v st' => if truthy v then eval_gen fuel' a st' else eval_gen fuel' b st'
                  | r => r end
   | ECall f args =>
       (fix evargs (l:list expr) (acc:list value) (st:state) {struct l} : eres :=
@@ -168,44 +171,44 @@ Fixpoint eval (fuel:nat) (e:expr) (st:state) {struct fuel} : eres :=
            match find_method methods f with
            | Some body =>
                (* a method of the same object: fresh locals, same self *)
-               match exec_list fuel' body (set_vars st []) with
+               match exec_gen fuel' body (set_vars st []) with
                | (Returned v, st') => EV v (set_vars st' (vars st))
                | (Normal, st') => EV VNone (set_vars st' (vars st))
                | (Exn c, st') => EX c (set_vars st' (vars st))
                | (Stuck w, _) => ES w
                end
-           | None => call_summary f (rev acc) st
+           | None => summary f (rev acc) st
            end
-         | a :: r => match eval fuel' a st with EV v st' => evargs r (v :: acc) st' | other => other end
+         | a :: r => match eval_gen fuel' a st with EV v st' => evargs r (v :: acc) st' | other => other end
          end) args [] st
   end end
-with exec_list (fuel:nat) (body:list stmt) (st:state) {struct fuel} : outcome * state :=
+with exec_gen (fuel:nat) (body:list stmt) (st:state) {struct fuel} : outcome * state :=
   match fuel with O => (Stuck "fuel", st) | S fuel' =>
   match body with
   | [] => (Normal, st)
   | s :: rest =>
-    let continue (st':state) := exec_list fuel' rest st' in
+    let continue (st':state) := exec_gen fuel' rest st' in
     match s with
-    | SAssign x e => match eval fuel' e st with
+    | SAssign x e => match eval_gen fuel' e st with
                      | EV v st' => continue (set_vars st' (update (vars st') x v))
                      | EX c st' => (Exn c, st') | ES w => (Stuck w, st) end
-    | SSetSelf a e => match eval fuel' e st with
+    | SSetSelf a e => match eval_gen fuel' e st with
                       | EV v st' => continue (set_selfs st' (update (selfs st') a v))
                       | EX c st' => (Exn c, st') | ES w => (Stuck w, st) end
-    | SExpr e => match eval fuel' e st with
+    | SExpr e => match eval_gen fuel' e st with
                  | EV _ st' => continue st' | EX c st' => (Exn c, st') | ES w => (Stuck w, st) end
-    | SIf c th el => match eval fuel' c st with
-                     | EV v st' => match exec_list fuel' (if truthy v then th else el) st' with
+    | SIf c th el => match eval_gen fuel' c st with
+                     | EV v st' => match exec_gen fuel' (if truthy v then th else el) st' with
                                    | (Normal, st'') => continue st''
                                    | other => other end
                      | EX cl st' => (Exn cl, st') | ES w => (Stuck w, st) end
     | SRaise cls => (Exn cls, emit st (Raised cls))
-    | SReturn e => match eval fuel' e st with
+    | SReturn e => match eval_gen fuel' e st with
                    | EV v st' => (Returned v, st') | EX c st' => (Exn c, st') | ES w => (Stuck w, st) end
     | STry b fin =>
-        match exec_list fuel' b st with
+        match exec_gen fuel' b st with
         | (Stuck w, st') => (Stuck w, st')
-        | (o, st') => match exec_list fuel' fin st' with
+        | (o, st') => match exec_gen fuel' fin st' with
                       | (Normal, st'') => match o with Normal => continue st'' | _ => (o, st'') end
                       | other => other end
         end
@@ -213,6 +216,10 @@ with exec_list (fuel:nat) (body:list stmt) (st:state) {struct fuel} : outcome * 
   end end.
 
 End Exec.
+
+(* the effect view used by C08/C07/C10: the summaries above *)
+Definition eval := eval_gen call_summary.
+Definition exec_list := exec_gen call_summary.
 
 Definition FUEL := 200.
 
